@@ -736,7 +736,12 @@ macro_rules! with_array {
                 let $arr: [_; 8] = to_arr(v);
                 $body
             }
-            _ => unreachable!("parser limits arrays to 8"),
+            288 => {
+                // one large array (more than 4 KiB of elements)
+                let $arr: [_; 288] = to_arr(v);
+                $body
+            }
+            _ => unreachable!("parser limits arrays to 8 (and 288)"),
         }
     }};
 }
